@@ -98,6 +98,13 @@ def make_request(rng, kind, n, cls, nq=2):
         pts = jittered(rng, n, d)
     elif cls == "dyadic":
         pts = dyadic(rng, n, d)
+    elif cls == "tensor":         # factorized kinds: (time grid) x (space points), the typical use
+        m1 = rng.randrange(2, 6)
+        m2 = max(d + 1, n // m1)    # enough space points for the drifts {x, y, z} to be independent
+        ts = [p[0] for p in jittered(rng, m1, 1)]
+        xs = separated(rng, m2, d - 1)
+        pts = [[t] + x for t in ts for x in xs]
+        n = len(pts)
     elif cls == "collinear":      # all points on a line: the drift block is rank deficient in 2D/3D
         base = dyadic(rng, n, 1)
         pts = [[p[0]] + [0.5] * (d - 1) for p in base]
@@ -220,7 +227,7 @@ def assess(req, ia):
                 fails.append(("reproduction-conditioning",
                               "training point %d: |K(x_k) - (f_k - nugget_k a_k)| = %.3e exceeds %g N eps (|M_k|_1 |a|_inf + |f_k|) = %.3e"
                               % (r, e, KAPPA, bound)))
-            well = req["cls"] in ("sep", "grid") and (req["kind"] not in CUBIC1D or n <= 24)
+            well = req["cls"] in ("sep", "grid", "tensor") and (req["kind"] not in CUBIC1D or n <= 24)
             if well and e > 1.0e-9 * max(fscale, abs(nug * a[r])):
                 fails.append(("reproduction-1e-9",
                               "training point %d of well separated data: K(x_k) = %.17g, expected f_k - nugget_k a_k = %.17g (|diff| = %.3e > 1e-9 relative)"
@@ -279,6 +286,9 @@ def run(ck):
             for n in (lo + 1, rng.randrange(lo + 2, 20)):
                 reqs.append(make_request(rng, kind, n, "dyadic"))
             reqs.append(make_request(rng, kind, rng.randrange(lo + 1, 41), "rand"))
+            if kind in ("f11", "f12", "f13", "F11", "F12", "F13"):
+                for n in (rng.randrange(6, 13), rng.randrange(13, 31)):
+                    reqs.append(make_request(rng, kind, n, "tensor"))
         # rejected inputs
         for n in range(1, lo + 1):
             reqs.append(make_request(rng, kind, n, "rand"))
@@ -334,14 +344,14 @@ def run(ck):
             stats["ok"] += 1
             classes.add((kind, n, cls, bool(any(r["nugs"]))))
             fails, st = assess(r, ia)
-            if st and cls in ("sep", "grid", "dyadic"):
+            if st and cls in ("sep", "grid", "tensor", "dyadic"):
                 stats["max_p2_ratio"] = max(stats["max_p2_ratio"], st["p2"])
                 stats["max_p3_ratio"] = max(stats["max_p3_ratio"], st["p3"])
                 if cls != "dyadic" and (kind not in CUBIC1D or n <= 24):
                     stats["max_rel_error_well_separated"] = max(stats["max_rel_error_well_separated"], st["abs"])
             elif st:
                 stats["max_p2_ratio_rand_class"] = max(stats["max_p2_ratio_rand_class"], st["p2"])
-            if cls not in ("sep", "grid"):
+            if cls not in ("sep", "grid", "tensor"):
                 # clustered / dyadic / collinear data may be arbitrarily ill conditioned: outside the property's
                 # quantifier ("well-separated"); only exactness-independent criteria are kept
                 fails = [f for f in fails if f[0] in ("shape",)]
@@ -350,7 +360,7 @@ def run(ck):
             stats["err"][e] = stats["err"].get(e, 0) + 1
             if ia["status"] != "err" or e in ("other", "no-capture"):
                 fails = [("unexpected-answer", "the harness answered '%s'" % (impl[i] if i < len(impl) else "missing")[:200])]
-            elif cls in ("sep", "grid") and n > min_insufficient(kind):
+            elif cls in ("sep", "grid", "tensor") and n > min_insufficient(kind):
                 fails = [("no-interpolant", "building the interpolant on %d well separated points failed: %s" % (n, e))]
         # correspondence with the model: same status; matrix, right-hand side, evaluations bit for bit
         same = True
@@ -457,7 +467,7 @@ def run(ck):
     return ck.finish({
         "units_traced": len(units), "outputs_traced": sum(len(u.outs) for u in units),
         "evaluations": len(reqs) + len(xreqs), "distinct_nontrivial": len(classes) + xstats["ok"],
-        "rule": "requests = 17 instantiations (Kriging<1,2,3>, piecewise-linear, custom per-point nugget, FactorizedKriging<1,M>, the 6 wrappers, KrigedFunction<1,2,3>) x sizes (smallest accepted .. 40) x data classes (separated, jittered grid, dyadic, clustered, collinear, degenerate, too few points); distinct non-trivial = distinct (kind, n, class, nugget?) for which an interpolant was built and compared cell by cell + exact-scalar requests solved",
+        "rule": "requests = 17 instantiations (Kriging<1,2,3>, piecewise-linear, custom per-point nugget, FactorizedKriging<1,M>, the 6 wrappers, KrigedFunction<1,2,3>) x sizes (smallest accepted .. 40) x data classes (separated, jittered grid, tensor grid for the factorized kinds, dyadic, clustered, collinear, degenerate, too few points); distinct non-trivial = distinct (kind, n, class, nugget?) for which an interpolant was built and compared cell by cell + exact-scalar requests solved",
         "exhaustive": False, "float_stats": stats, "exact_stats": xstats,
         "property_failures": len(failures),
         "traces_validated_against_impl": len(reqs) + len(xreqs),
